@@ -6,6 +6,15 @@ namespace Gen.Default
 -- plot/core.py : Plotter.prepare_xy_vals_lineplot.gen_xy — `not_null = isfinite(x); not_null &= isfinite(y)`
 def maskIsBothFinite (xFinite yFinite : Bool) : Bool := xFinite && yFinite
 
+-- plot/core.py : Plotter.prepare_xy_vals_lineplot.gen_xy — the keys `k` of the prepared arrays `data[k]` whose finiteness
+-- enters `not_null`
+def maskArrays : List String := ["x", "y"]
+
+-- plot/core.py : Plotter.calc_color_norm — `if self.vmin is None: self.vmin = self._zmin` (same for vmax): is the limit
+-- passed by the caller replaced by the data limit?  (isNone: it is None; isZero: it is a number equal to 0)
+def vminDefaulted (isNone isZero : Bool) : Bool := isNone
+def vmaxDefaulted (isNone isZero : Bool) : Bool := isNone
+
 -- plot/core.py : Plotter.calc_use_legend_or_colorbar.auto_legend — `1 < len(self._z_vals) <= 10`
 def autoLegend (n : Int) : Bool := decide (1 < n) && decide (n ≤ 10)
 
